@@ -225,6 +225,70 @@ class NativeWorld:
         return subs
 
 
+def make_evaluator(sw, nw, ghost=None):
+    """python evaluator of specification terms on the native world's numbers"""
+    from .zeval import pyeval
+    from fractions import Fraction
+
+    consts = {}
+    for name, v in sw.consts.items():
+        if name in nw.consts:
+            consts[name] = nw.consts[name]
+    funs = {}
+    for fname, (fn, vd) in sw.fields.items():
+        t = nw._table(fname)
+        off, sg = nw._off(fname)
+        if len(vd) == 0:
+            consts[fn.decl().name()] = sg * off if t is None else nw._tofloat(t["else"])
+            continue
+        if t is not None:
+            tab = {tuple(int(x) for x in row[:-1]): nw._tofloat(row[-1]) for row in t["entries"]}
+            els = nw._tofloat(t["else"])
+            funs[fn.name()] = (lambda tab, els: lambda *a: tab.get(tuple(int(x) for x in a), els))(tab, els)
+        else:
+            def enc(*a, off=off, sg=sg):
+                e = 0
+                for x in a:
+                    e = e * B + int(x)
+                return sg * (e + Fraction(off))
+            funs[fn.name()] = enc
+    cache_shared = {}
+    for key, (fn, term, a, dim, others) in ((ghost or {}).get("prefix-registry") or {}).items():
+        def psum(*args, a=a, dim=dim, others=others):
+            k = int(args[-1])
+            tot = 0
+            for i in range(0, k + 1):
+                idx = {d: z3.IntVal(int(x)) for d, x in zip(others, args[:-1])}
+                idx[dim] = z3.IntVal(i)
+                tot = tot + pyeval(a._elem(idx), consts, funs)
+            return tot
+        funs[fn.name()] = psum
+
+    def ev(t, extra=None):
+        c = dict(consts)
+        if extra:
+            c.update(extra)
+        return pyeval(t, c, funs)
+    return ev
+
+
+class Twin:
+    """context for building the symbolic twin of a native scenario (specification terms only)"""
+
+    def __enter__(self):
+        self.ctx = symx.Ctx([])
+        symx.CUR = self.ctx
+        return self
+
+    def __exit__(self, *a):
+        symx.CUR = None
+        return False
+
+    @property
+    def ghost(self):
+        return self.ctx.ghost
+
+
 def evalnum(t, subs, funs):
     if isinstance(t, (int, float, bool)):
         return t
@@ -283,14 +347,13 @@ def model_values(model):
     return vals
 
 
-def native_compare(sw, nw, cells, q, out_real, extra_subs=(), tol=1e-9, max_report=8):
+def native_compare(sw, nw, cells, q, out_real, ghost=None, tol=1e-9, max_report=8):
     """compare a real xarray result with specification clauses (name, region, value) cell by cell.
     q: {dim: z3 index variable}.  Returns list of mismatch strings."""
     import itertools
 
     mism = []
-    subs0 = nw.numconsts(sw) + list(extra_subs)
-    funs = nw.numfuns(sw)
+    ev = make_evaluator(sw, nw, ghost)
     dims = list(out_real.dims)
     for d in dims:
         if d not in q:
@@ -299,15 +362,13 @@ def native_compare(sw, nw, cells, q, out_real, extra_subs=(), tol=1e-9, max_repo
     if vals.size > 20000:
         return [f"result too large to compare natively ({vals.size} cells)"]
     for pos in itertools.product(*[range(n) for n in vals.shape]):
-        subs = subs0 + [(q[d], z3.IntVal(p)) for d, p in zip(dims, pos)]
+        extra = {q[d].decl().name(): p for d, p in zip(dims, pos)}
         for d in q:
             if d not in dims:
-                subs.append((q[d], z3.IntVal(0)))
-        hit = False
+                extra[q[d].decl().name()] = 0
         for name, region, valt in cells:
-            if evalnum(region, subs, funs):
-                hit = True
-                want = evalnum(valt, subs, funs)
+            if ev(region, extra):
+                want = float(ev(valt, extra))
                 got = float(vals[pos])
                 if not (abs(got - want) <= tol * max(1.0, abs(want))):
                     mism.append(f"{name}: cell {dict(zip(dims, pos))} got {got!r} expected {want!r}")
@@ -315,3 +376,47 @@ def native_compare(sw, nw, cells, q, out_real, extra_subs=(), tol=1e-9, max_repo
         if len(mism) >= max_report:
             break
     return mism
+
+
+# ---- recording user functions (C11: the user program is uninterpreted) ----------------------------
+def _sym_userfunc(self, name, out_shapes_cb, annotations=None):
+    from .mxr import NArr
+
+    calls = []
+
+    def f(*arrs, **kw):
+        calls.append((arrs, kw))
+        shapes = out_shapes_cb(arrs)
+        outs = []
+        for k, shp in enumerate(shapes):
+            fname = f"{name}{k}"
+            if fname not in self.fields:
+                fn = z3.Function(fname, *([z3.IntSort()] * len(shp)), symx.Val) if shp else z3.Real(fname)
+                self.fields[fname] = (fn, tuple(range(len(shp))))
+            fn = self.fields[fname][0]
+            outs.append(NArr(tuple(shp), (lambda fn: lambda p: fn(*p) if len(p) else fn)(fn)))
+        return outs[0] if len(outs) == 1 else tuple(outs)
+    if annotations:
+        f.__annotations__ = dict(annotations)
+    f.calls = calls
+    return f
+
+
+def _nat_userfunc(self, name, out_shapes_cb, annotations=None):
+    calls = []
+
+    def f(*arrs, **kw):
+        calls.append((arrs, kw))
+        shapes = out_shapes_cb(arrs)
+        outs = []
+        for k, shp in enumerate(shapes):
+            outs.append(self._data(f"{name}{k}", tuple(int(x) for x in shp)))
+        return outs[0] if len(outs) == 1 else tuple(outs)
+    if annotations:
+        f.__annotations__ = dict(annotations)
+    f.calls = calls
+    return f
+
+
+SymWorld.userfunc = _sym_userfunc
+NativeWorld.userfunc = _nat_userfunc
